@@ -120,15 +120,21 @@ impl EventGen for Container {
         context: &mut TransformerContext,
     ) -> Result<(OutputList, Option<BoundingBox>)> {
         if let Some(inner_events) = self.0.inner_events(context) {
-            // If there's only text/cdata events, apply to current element and render
+            // If there's only text/cdata events, apply to current element and render: the
+            // pieces in order, where white space around a CDATA section is formatting
+            let has_cdata = inner_events.iter().any(|e| e.cdata_string().is_some());
             let mut inner_text = None;
             for e in inner_events.iter() {
                 if let Some(t) = e.text_string() {
-                    if inner_text.is_none() {
-                        inner_text = Some(t);
+                    let mut so_far: String = inner_text.unwrap_or_default();
+                    if !(has_cdata && t.trim().is_empty()) {
+                        so_far.push_str(&t);
                     }
+                    inner_text = Some(so_far);
                 } else if let Some(c) = e.cdata_string() {
-                    inner_text = Some(c);
+                    let mut so_far: String = inner_text.unwrap_or_default();
+                    so_far.push_str(&c);
+                    inner_text = Some(so_far);
                 } else {
                     // not text or cdata - abandon the effort and mark as such.
                     inner_text = None;
